@@ -481,6 +481,12 @@ func init() {
 							for j, k := 0, g.Range(1, 2); j < k; j++ {
 								if g.Chance(1, 4) {
 									objs = append(objs, R1+"/notes/iri")
+								} else if g.Chance(1, 6) {
+									// a value of a type the vocabularies do not
+									// define, on a path whose typed values have
+									// no unknown member of their own
+									cnt++
+									objs = append(objs, M{"type": "Widget", "id": fmt.Sprintf("%s/things/widget/%d", L, cnt), "bto": pool[0], "bcc": A{pool[g.Intn(len(pool))]}})
 								} else {
 									// among the embedded values also carriers the typed
 									// removal cannot see into: Links, and intransitive
